@@ -220,7 +220,9 @@ class _BaseLayout(MaildirLayout[_MaildirT], metaclass=ABCMeta):
         return maildir
 
     def add_folder(self, name: str, delimiter: str) -> None:
-        parts = self._split(name, delimiter)
+        self._add_folder(self._split(name, delimiter))
+
+    def _add_folder(self, parts: _Parts) -> None:
         for i in range(1, len(parts) - 1):
             path = self._get_path(parts[0:i])
             if not os.path.isdir(path):
@@ -253,8 +255,9 @@ class _BaseLayout(MaildirLayout[_MaildirT], metaclass=ABCMeta):
             parts = dest_parts[0:i]
             path = self._get_path(parts)
             if not os.path.isdir(path):
-                name = self._join(parts, delimiter)
-                self.add_folder(name, delimiter)
+                # by its parts: joined into a name, the superior INBOX of
+                # INBOX/x would be read back as the inbox itself
+                self._add_folder(parts)
         self._rename_folder(source_parts, dest_parts)
 
 
